@@ -971,6 +971,32 @@ harnesses! {
     { log_restore_seq, "C14,C15", quick, unwind = 8,
       "RaftLog::restore(snapshot at symbolic index >= committed, symbolic term) then a stale maybe_persist, stable_snap, maybe_persist_snap: log collapses to the snapshot point, persisted never lands on the pending snapshot index",
       |s| c14::restore_seq(s, &LG21) }
+    // ---------------- C19 MemStorage ----------------
+    { dbg_mem, "DBG", quick, unwind = 8, "dbg", |s| c19::dbg_mem(s) }
+    { mem_append_overwrite_compact, "C19", quick, unwind = 8,
+      "MemStorage: append 1..=3, overwriting append 2..=3, compact(2); then first/last/term/entries(2,4)/snapshot against the model (symbolic terms)",
+      |s| c19::script(s, &[c19::append(1, 3), c19::append(2, 2), c19::compact(2)], 2, 4) }
+    { mem_commit_snapshot, "C19", quick, unwind = 8,
+      "MemStorage: append 1..=3, commit_to(2): snapshot() carries index 2, its term and the configuration; a larger request index is honoured; entries(1,4)",
+      |s| c19::script(s, &[c19::append(1, 3), c19::commit(2)], 1, 4) }
+    { mem_snapshot_then_append, "C19", quick, unwind = 8,
+      "MemStorage: apply_snapshot(5) on an empty store, append 6..=7, compact(7): term of the snapshot index retained, compacted indexes answer Compacted, entries(7,8)",
+      |s| c19::script(s, &[c19::snap(5), c19::append(6, 2), c19::compact(7)], 7, 8) }
+    { mem_snapshot_below_commit, "C19", quick, unwind = 8,
+      "MemStorage: append 1..=4, hard state with a symbolic commit, apply_snapshot(2) (first_index <= 2): the stored commit becomes 2 and snapshot() is (2, its term)",
+      |s| c19::script(s, &[c19::append(1, 4), c19::HS, c19::snap(2)], 3, 2) }
+    { mem_conf_after_snapshot, "C19", quick, unwind = 8,
+      "MemStorage: apply_snapshot(3) then set_conf_state: a snapshot taken while commit still equals the snapshot point carries the *stored* configuration",
+      |s| c19::script(s, &[c19::snap(3), c19::CS], 4, 3) }
+    { mem_stale_snapshot, "C19", quick, unwind = 8,
+      "MemStorage: append 1..=3, compact(3), apply_snapshot(1) (below first_index): SnapshotOutOfDate, nothing changes",
+      |s| c19::script(s, &[c19::append(1, 3), c19::compact(3), c19::snap(1)], 3, 4) }
+    { mem_compact_below, "C19", thorough, unwind = 8,
+      "MemStorage: append 1..=3, compact(1) (no-op), compact(3), overwrite 3..=4",
+      |s| c19::script(s, &[c19::append(1, 3), c19::compact(1), c19::compact(3), c19::append(3, 2)], 3, 5) }
+    { mem_empty_range_on_empty_store, "C19", quick, unwind = 8,
+      "MemStorage: apply_snapshot(5) only; the empty range entries(6, 6) on a store that holds no entries",
+      |s| c19::script(s, &[c19::snap(5)], 6, 6) }
     // ---------------- C18 Inflights ----------------
     { c18_base, "C18", quick, unwind = 8,
       "induction base: Inflights::new(c), c in 0..=5, is an II-state denoting the empty FIFO",
